@@ -129,9 +129,34 @@ def recursive_program(r):
     return src, pairs
 
 
+def intersection_program(r):
+    """a computed type over an intersection of inline object types that share a key (same type, different optionality, or a
+    narrower type on one side) must mean the object type a reader writes down by hand: Exclude<(A & B) | Z, Z> and
+    (A & B)[k] against the merged object / the member type"""
+    ty = r.choice(["string", "number", "boolean", '"a"'])
+    other = r.choice(["boolean", "number"])
+    shared = r.choice(["tag", "k", "id"])
+    forms = [("%s: %s" % (shared, ty), "%s?: %s" % (shared, ty), "%s: %s" % (shared, ty)),        # required & optional = required
+             ("%s?: %s" % (shared, ty), "%s: %s" % (shared, ty), "%s: %s" % (shared, ty)),
+             ("%s?: %s" % (shared, ty), "%s?: %s" % (shared, ty), "%s?: %s" % (shared, ty))]
+    fa, fb, fe = r.choice(forms[:2] if r.random() < 0.8 else forms)
+    a = "{ x: string; %s; n: %s }" % (fa, other)
+    b = "{ %s; note: boolean }" % fb
+    e = "{ x: string; %s; n: %s; note: boolean }" % (fe, other)
+    decls = ["export type X = %s & %s;" % (a, b), "export type Z = { z: 1 };", "export type C0 = Exclude<X | Z, Z>;",
+             "export type E0 = %s;" % e]
+    pairs = [("C0", "E0")]
+    parsers = ["C0", "E0"]
+    if r.random() < 0.5:
+        decls += ['export type C1 = X["n"];', "export type E1 = %s;" % other]
+        pairs.append(("C1", "E1")); parsers += ["C1", "E1"]
+    src = 'import parse from "./parser";\n' + "\n".join(decls) + "\nexport default parse.buildParsers<{ %s }>();\n" % ", ".join("%s: %s" % (x, x) for x in parsers)
+    return src, pairs
+
+
 def program_stream(run, n, fails, cov):
     r = random.Random(run.seed + 707)
-    progs = [recursive_program(r) for _ in range(n)]
+    progs = [intersection_program(r) if i % 4 == 3 else recursive_program(r) for i in range(n)]
     pknown = [k for k in common.load_known("C07") if "program" in json.loads(k["witness"])]
     for k in pknown:
         w = json.loads(k["witness"])
